@@ -63,7 +63,7 @@ func (o OracleC17) AfterHalt(x *Exec, op *Op, res *Res) {
 	// custody and CompleteUnbondings fails with the bank's insufficient-funds error.
 	if strings.Contains(msg, "failed to complete undelegations") && (strings.Contains(msg, "insufficient funds") || strings.Contains(msg, "is smaller than")) {
 		for _, dn := range AssetDenoms {
-			if strings.Contains(msg, dn) && x.PrecisionCollapsed(dn) {
+			if regexp.MustCompile(`[0-9]`+regexp.QuoteMeta(dn)+`([^a-zA-Z0-9/:._-]|$)`).MatchString(msg) && x.PrecisionCollapsed(dn) {
 				x.KnownFinding("F-C04a")
 				return
 			}
